@@ -122,6 +122,8 @@ pub const STEP_DFA_BUDGET: u64 = 1_500_000;
 
 /// progress marker read by the watchdog: (step index << 8) | op index
 pub static PROGRESS: AtomicU64 = AtomicU64::new(0);
+/// crash probe: the index and op of the step about to be executed are written to this file
+pub static PROGRESS_FILE: std::sync::OnceLock<String> = std::sync::OnceLock::new();
 /// print log lines to stderr as they are produced (debugging aid: `smtsim one ... --live`)
 pub static LIVE: AtomicU64 = AtomicU64::new(0);
 
@@ -138,7 +140,7 @@ pub fn run_trace(trace: &Trace, cfg: &Config) -> Outcome {
     let (tx, rx) = std::sync::mpsc::channel();
     let h = std::thread::Builder::new()
         .name("sim-run".into())
-        .stack_size(512 << 20)
+        .stack_size(256 << 20)
         .spawn(move || {
             let o = run_inner(&trace, &cfg);
             let _ = tx.send(o);
@@ -398,6 +400,11 @@ impl<'t> World<'t> {
             }
             self.step_idx = i;
             PROGRESS.store(((i as u64) << 8) | (st.op as u64), Ordering::Relaxed);
+            if self.cfg.solo.is_none() {
+                if let Some(pf) = PROGRESS_FILE.get() {
+                    let _ = std::fs::write(pf, format!("{} {}", i, st.op.name()));
+                }
+            }
             self.order.write_u64(ci as u64);
             let before = {
                 let mi = self.clients[ci].mgr;
@@ -766,6 +773,46 @@ impl<'t> World<'t> {
         }
         let info = self.check_new_term(ci, re)?;
         self.probes_ctor(ci, st.op, &call, re);
+
+        // a term with a character range whose end points the clients never supplied cannot be
+        // mapped to the run's alphabet; it is judged on concrete strings around those end points
+        if self.on(Prop::C01) && info.alien {
+            if let Some(sd) = self.spec_dfa(&spec) {
+                let mut pts = Vec::new();
+                alien_points(re, &self.alpha, &mut pts, &mut HashSet::new());
+                pts.sort_unstable();
+                pts.dedup();
+                let mut rng = Rng::new(self.salt(st));
+                let mut bases: Vec<Vec<u8>> = Vec::new();
+                bases.extend(sd.shortest_accepted());
+                bases.extend(sd.shortest_rejected());
+                for acc in [true, false, true, false] {
+                    bases.extend(sd.steered(&mut rng, acc, 6));
+                }
+                bases.push(vec![0]);
+                for w in bases {
+                    let conc = self.instantiate(&w, &mut rng);
+                    for i in 0..conc.len() {
+                        for &p in &pts {
+                            let mut c2 = conc.clone();
+                            c2[i] = p;
+                            let expect = sd.accepts(&self.alpha.to_cells(&c2));
+                            let sstr = smt_str(&c2);
+                            let ms = &mut self.mgrs[mi];
+                            let got = guarded(|| ms.m.with(|m| m.str_in_re(&sstr, re)));
+                            self.eval(Prop::C01, "c01.membership-vs-construction", 0, 0, false);
+                            let wt = self.show_str(&c2);
+                            self.judge(Prop::C01, "c01.membership-vs-construction", got == Ok(expect), || {
+                                format!(
+                                    "{} returned {} (it contains a character range with end points that were never supplied); str_in_re({}) = {:?} but the SMT-LIB denotation {} says {}",
+                                    st.op.name(), show(re), wt, got, spec, expect
+                                )
+                            })?;
+                        }
+                    }
+                }
+            }
+        }
 
         // C01 (a): language of the actual term == language of the specification
         if self.on(Prop::C01) && !info.alien {
